@@ -1,8 +1,10 @@
 package main
 
 import (
+	"encoding/json"
 	"fmt"
 	"os"
+	"strings"
 	"runtime/pprof"
 	"time"
 
@@ -117,15 +119,30 @@ func selfBench(boxID string, limit int, prof string) {
 //	D deliver oldest   X drop oldest   Q deliver oldest until the pool is empty
 //	Y delay oldest   V duplicate the oldest MsgSnap (else the oldest message), the copy is delayed
 //	Z release the oldest delayed message
+//	L<n> lag   A<n> apply the held page   N<n> unlag   F<n><v> proposeConf at n, variant v (index into ccNames)
+//	X<k> / D<k> with a digit: drop / deliver the k-th pooled message (0 = oldest)
+//	W print the state   J print the path executed so far as JSON (for a replay file)
+//
+// The configuration name may carry a joiner count: "one+2" = one entry per message, 3 members
+// and 2 joiners.
 func scenario(cfgName string, toks []string) {
-	cfg := cfgPlain(3, false)
+	joiners := 0
+	if i := strings.IndexByte(cfgName, '+'); i >= 0 {
+		fmt.Sscan(cfgName[i+1:], &joiners)
+		cfgName = cfgName[:i]
+	}
+	cfg := cfgPlain(3, joiners > 0)
 	switch cfgName {
 	case "one":
-		cfg = cfgOnePerMsg(3, false)
+		cfg = cfgOnePerMsg(3, joiners > 0)
 	case "pvcq":
-		cfg = cfgPVCQ(3, false)
+		cfg = cfgPVCQ(3, joiners > 0)
 	}
-	bud := Budget{MaxTerm: 9, Proposals: 9, Drops: 99, Dups: 9, Crashes: 9, Heartbeats: 9, Compacts: 9, Expires: 9, Delays: 9}
+	if joiners > 1 {
+		cfg.Joiners = joiners
+	}
+	bud := Budget{MaxTerm: 9, Proposals: 9, Drops: 99, Dups: 9, Crashes: 9, Heartbeats: 9, Compacts: 9, Expires: 9, Delays: 9, ConfChanges: 9, Lags: 9, Applies: 99}
+	var done []Event
 	c := newCluster(newSim(false), &cfg, &bud, true)
 	step := func(e Event) bool {
 		desc := c.describe(e)
@@ -135,6 +152,7 @@ func scenario(cfgName string, toks []string) {
 			return false
 		}
 		c = d
+		done = append(done, e)
 		fmt.Println("  ", desc)
 		for _, v := range c.viol {
 			fmt.Println("      VIOLATION", v.Kind, v.Detail)
@@ -184,13 +202,26 @@ func scenario(cfgName string, toks []string) {
 				step(Event{K: evRelease, A: c.held[0].seq})
 			}
 		case 'D':
-			if len(c.pool) > 0 {
-				step(Event{K: evDeliver, A: c.pool[0].seq})
+			if len(c.pool) > int(n) {
+				step(Event{K: evDeliver, A: c.pool[n].seq})
 			}
 		case 'X':
-			if len(c.pool) > 0 {
-				step(Event{K: evDrop, A: c.pool[0].seq})
+			if len(c.pool) > int(n) {
+				step(Event{K: evDrop, A: c.pool[n].seq})
 			}
+		case 'L':
+			step(Event{K: evLag, N: n})
+		case 'A':
+			step(Event{K: evApply, N: n})
+		case 'N':
+			step(Event{K: evUnlag, N: n})
+		case 'F':
+			step(Event{K: evConf, N: n, A: uint16(t[2] - '0')})
+		case 'W':
+			fmt.Println(c.summary())
+		case 'J':
+			jb, _ := json.Marshal(done)
+			fmt.Println(string(jb))
 		case 'Q':
 			for i := 0; len(c.pool) > 0 && i < 100; i++ {
 				step(Event{K: evDeliver, A: c.pool[0].seq})
